@@ -58,12 +58,16 @@ func (f *Filter) Append(buf []byte, _, _ bool) []byte {
 }
 
 func (f *Filter) remove(value any) (out any, changed bool) {
+	return f.removeRoot(nil, value)
+}
+
+func (f *Filter) removeRoot(root, value any) (out any, changed bool) {
 	out = value
 	switch tv := value.(type) {
 	case []any:
 		ns := make([]any, 0, len(tv))
 		for _, v := range tv {
-			if f.Match(v) {
+			if f.matchRoot(root, v) {
 				changed = true
 			} else {
 				ns = append(ns, v)
@@ -74,7 +78,7 @@ func (f *Filter) remove(value any) (out any, changed bool) {
 		}
 	case map[string]any:
 		for k, v := range tv {
-			if f.Match(v) {
+			if f.matchRoot(root, v) {
 				delete(tv, k)
 				changed = true
 			}
@@ -82,7 +86,7 @@ func (f *Filter) remove(value any) (out any, changed bool) {
 	case gen.Array:
 		ns := make(gen.Array, 0, len(tv))
 		for _, v := range tv {
-			if f.Match(v) {
+			if f.matchRoot(root, v) {
 				changed = true
 			} else {
 				ns = append(ns, v)
@@ -93,7 +97,7 @@ func (f *Filter) remove(value any) (out any, changed bool) {
 		}
 	case gen.Object:
 		for k, v := range tv {
-			if f.Match(v) {
+			if f.matchRoot(root, v) {
 				delete(tv, k)
 				changed = true
 			}
@@ -102,7 +106,7 @@ func (f *Filter) remove(value any) (out any, changed bool) {
 		size := tv.Size()
 		for i := (size - 1); i >= 0; i-- {
 			v := tv.ValueAtIndex(i)
-			if f.Match(v) {
+			if f.matchRoot(root, v) {
 				tv.RemoveValueAtIndex(i)
 				changed = true
 			}
@@ -111,7 +115,7 @@ func (f *Filter) remove(value any) (out any, changed bool) {
 		keys := tv.Keys()
 		for _, key := range keys {
 			v, _ := tv.ValueForKey(key)
-			if f.Match(v) {
+			if f.matchRoot(root, v) {
 				tv.RemoveValueForKey(key)
 				changed = true
 			}
@@ -127,7 +131,7 @@ func (f *Filter) remove(value any) (out any, changed bool) {
 			cnt := rv.Len()
 			nc := 0
 			for i := 0; i < cnt; i++ {
-				if f.Match(rv.Index(i).Interface()) {
+				if f.matchRoot(root, rv.Index(i).Interface()) {
 					changed = true
 				} else {
 					nc++
@@ -139,7 +143,7 @@ func (f *Filter) remove(value any) (out any, changed bool) {
 				ns := reflect.MakeSlice(rv.Type(), nc, nc)
 				for i := 0; i < cnt; i++ {
 					iv := rv.Index(i)
-					if f.Match(iv.Interface()) {
+					if f.matchRoot(root, iv.Interface()) {
 						changed = true
 					} else {
 						ns.Index(ni).Set(iv)
@@ -152,7 +156,7 @@ func (f *Filter) remove(value any) (out any, changed bool) {
 			keys := rv.MapKeys()
 			for _, k := range keys {
 				mv := rv.MapIndex(k)
-				if f.Match(mv.Interface()) {
+				if f.matchRoot(root, mv.Interface()) {
 					rv.SetMapIndex(k, reflect.Value{})
 					changed = true
 				}
@@ -163,12 +167,16 @@ func (f *Filter) remove(value any) (out any, changed bool) {
 }
 
 func (f *Filter) removeOne(value any) (out any, changed bool) {
+	return f.removeOneRoot(nil, value)
+}
+
+func (f *Filter) removeOneRoot(root, value any) (out any, changed bool) {
 	out = value
 	switch tv := value.(type) {
 	case []any:
 		ns := make([]any, 0, len(tv))
 		for _, v := range tv {
-			if !changed && f.Match(v) {
+			if !changed && f.matchRoot(root, v) {
 				changed = true
 			} else {
 				ns = append(ns, v)
@@ -185,7 +193,7 @@ func (f *Filter) removeOne(value any) (out any, changed bool) {
 			}
 			sort.Strings(keys)
 			for _, k := range keys {
-				if f.Match(tv[k]) {
+				if f.matchRoot(root, tv[k]) {
 					delete(tv, k)
 					changed = true
 					break
@@ -195,7 +203,7 @@ func (f *Filter) removeOne(value any) (out any, changed bool) {
 	case gen.Array:
 		ns := make(gen.Array, 0, len(tv))
 		for _, v := range tv {
-			if !changed && f.Match(v) {
+			if !changed && f.matchRoot(root, v) {
 				changed = true
 			} else {
 				ns = append(ns, v)
@@ -212,7 +220,7 @@ func (f *Filter) removeOne(value any) (out any, changed bool) {
 			}
 			sort.Strings(keys)
 			for _, k := range keys {
-				if f.Match(tv[k]) {
+				if f.matchRoot(root, tv[k]) {
 					delete(tv, k)
 					changed = true
 					break
@@ -223,7 +231,7 @@ func (f *Filter) removeOne(value any) (out any, changed bool) {
 		size := tv.Size()
 		for i := 0; i < size; i++ {
 			v := tv.ValueAtIndex(i)
-			if f.Match(v) {
+			if f.matchRoot(root, v) {
 				tv.RemoveValueAtIndex(i)
 				changed = true
 				break
@@ -234,7 +242,7 @@ func (f *Filter) removeOne(value any) (out any, changed bool) {
 		sort.Strings(keys)
 		for _, key := range keys {
 			v, _ := tv.ValueForKey(key)
-			if f.Match(v) {
+			if f.matchRoot(root, v) {
 				tv.RemoveValueForKey(key)
 				changed = true
 				break
@@ -251,7 +259,7 @@ func (f *Filter) removeOne(value any) (out any, changed bool) {
 			cnt := rv.Len()
 			nc := 0
 			for i := 0; i < cnt; i++ {
-				if !changed && f.Match(rv.Index(i).Interface()) {
+				if !changed && f.matchRoot(root, rv.Index(i).Interface()) {
 					changed = true
 				} else {
 					nc++
@@ -263,7 +271,7 @@ func (f *Filter) removeOne(value any) (out any, changed bool) {
 				ns := reflect.MakeSlice(rv.Type(), nc, nc)
 				for i := 0; i < cnt; i++ {
 					iv := rv.Index(i)
-					if !changed && f.Match(iv.Interface()) {
+					if !changed && f.matchRoot(root, iv.Interface()) {
 						changed = true
 					} else {
 						ns.Index(ni).Set(iv)
@@ -279,7 +287,7 @@ func (f *Filter) removeOne(value any) (out any, changed bool) {
 			})
 			for _, k := range keys {
 				mv := rv.MapIndex(k)
-				if f.Match(mv.Interface()) {
+				if f.matchRoot(root, mv.Interface()) {
 					rv.SetMapIndex(k, reflect.Value{})
 					changed = true
 					break
@@ -316,12 +324,13 @@ func (f *Filter) locate(pp Expr, data any, rest Expr, max int) (locs []Expr) {
 // Walk each element that matches the filter.
 func (f *Filter) Walk(rest, path Expr, nodes []any, cb func(path Expr, nodes []any)) {
 	path = append(path, nil)
+	root := nodes[0]
 	data := nodes[len(nodes)-1]
 	nodes = append(nodes, nil)
 	switch tv := data.(type) {
 	case []any:
 		for i, v := range tv {
-			if f.Match(v) {
+			if f.matchRoot(root, v) {
 				path[len(path)-1] = Nth(i)
 				nodes[len(nodes)-1] = v
 				if 0 < len(rest) {
@@ -335,7 +344,7 @@ func (f *Filter) Walk(rest, path Expr, nodes []any, cb func(path Expr, nodes []a
 		size := tv.Size()
 		for i := 0; i < size; i++ {
 			v := tv.ValueAtIndex(i)
-			if f.Match(v) {
+			if f.matchRoot(root, v) {
 				path[len(path)-1] = Nth(i)
 				nodes[len(nodes)-1] = v
 				if 0 < len(rest) {
@@ -347,7 +356,7 @@ func (f *Filter) Walk(rest, path Expr, nodes []any, cb func(path Expr, nodes []a
 		}
 	case gen.Array:
 		for i, v := range tv {
-			if f.Match(v) {
+			if f.matchRoot(root, v) {
 				path[len(path)-1] = Nth(i)
 				nodes[len(nodes)-1] = v
 				if 0 < len(rest) {
@@ -365,7 +374,7 @@ func (f *Filter) Walk(rest, path Expr, nodes []any, cb func(path Expr, nodes []a
 			}
 			sort.Strings(keys)
 			for _, k := range keys {
-				if f.Match(tv[k]) {
+				if f.matchRoot(root, tv[k]) {
 					path[len(path)-1] = Child(k)
 					nodes[len(nodes)-1] = tv[k]
 					if 0 < len(rest) {
@@ -384,7 +393,7 @@ func (f *Filter) Walk(rest, path Expr, nodes []any, cb func(path Expr, nodes []a
 			}
 			sort.Strings(keys)
 			for _, k := range keys {
-				if f.Match(tv[k]) {
+				if f.matchRoot(root, tv[k]) {
 					path[len(path)-1] = Child(k)
 					nodes[len(nodes)-1] = tv[k]
 					if 0 < len(rest) {
@@ -400,7 +409,7 @@ func (f *Filter) Walk(rest, path Expr, nodes []any, cb func(path Expr, nodes []a
 		sort.Strings(keys)
 		for _, key := range keys {
 			v, _ := tv.ValueForKey(key)
-			if f.Match(v) {
+			if f.matchRoot(root, v) {
 				path[len(path)-1] = Child(key)
 				nodes[len(nodes)-1] = v
 				if 0 < len(rest) {
@@ -417,7 +426,7 @@ func (f *Filter) Walk(rest, path Expr, nodes []any, cb func(path Expr, nodes []a
 			cnt := rv.Len()
 			for i := 0; i < cnt; i++ {
 				v := rv.Index(i).Interface()
-				if f.Match(v) {
+				if f.matchRoot(root, v) {
 					path[len(path)-1] = Nth(i)
 					nodes[len(nodes)-1] = v
 					if 0 < len(rest) {
@@ -435,7 +444,7 @@ func (f *Filter) Walk(rest, path Expr, nodes []any, cb func(path Expr, nodes []a
 			for _, k := range keys {
 				mv := rv.MapIndex(k)
 				v := mv.Interface()
-				if f.Match(v) {
+				if f.matchRoot(root, v) {
 					path[len(path)-1] = Child(k.String())
 					nodes[len(nodes)-1] = v
 					if 0 < len(rest) {
